@@ -6,6 +6,7 @@ import json, os, sys, time, traceback, hashlib
 
 VERIF = os.path.dirname(os.path.dirname(os.path.abspath(__file__)))
 REPO_ROOT = os.environ.get('REPO_ROOT', '/repo')
+OUT = os.environ.get('VERIF_OUT', VERIF)      # evidence/ and replays/ go here (selftest redirects them)
 
 PROVED, FAILED, UNDECIDED = 'PROVED', 'FAILED', 'UNDECIDED'
 
@@ -141,10 +142,10 @@ class Report:
         for l in kf_lines:
             print(l)
         rc = 0
-        os.makedirs(os.path.join(VERIF, 'replays', self.prop), exist_ok=True)
+        os.makedirs(os.path.join(OUT, 'replays', self.prop), exist_ok=True)
         for kind, v in violations:
             rc = 1
-            rp = os.path.join(VERIF, 'replays', self.prop, _safe(v.id) + '.json')
+            rp = os.path.join(OUT, 'replays', self.prop, _safe(v.id) + '.json')
             with open(rp, 'w') as f:
                 json.dump({'property': self.prop, 'kind': kind, 'repo_root': REPO_ROOT, **v.to_json()}, f, indent=1, default=str)
             tail = ''
@@ -229,8 +230,8 @@ class Report:
             'coverage': cov, 'assumptions': self.assumptions, 'wall_s': round(time.time() - self.t0, 2),
             'violations': len(violations),
         }
-        os.makedirs(os.path.join(VERIF, 'evidence'), exist_ok=True)
-        with open(os.path.join(VERIF, 'evidence', self.prop + '.json'), 'w') as f:
+        os.makedirs(os.path.join(OUT, 'evidence'), exist_ok=True)
+        with open(os.path.join(OUT, 'evidence', self.prop + '.json'), 'w') as f:
             json.dump(ev, f, indent=1, default=str)
 
 
